@@ -27,6 +27,8 @@ pub enum Edit {
     /// point every import statement of the file at another module (same form, same level): the
     /// names the file binds stay the same, what it re-exports changes
     Retarget(u8),
+    /// the document becomes blank: 0 empty, 1 a newline, 2 spaces and a newline
+    Blank(u8),
 }
 
 #[derive(Clone, Debug, Serialize, Deserialize, PartialEq)]
@@ -65,6 +67,7 @@ pub fn edit(cfg: &GenCfg) -> BoxedStrategy<Edit> {
         3 => (0u8..3).prop_map(Edit::Break),
         1 => Just(Edit::Resend),
         2 => (1u8..4).prop_map(Edit::Retarget),
+        1 => (0u8..3).prop_map(Edit::Blank),
     ]
     .boxed()
 }
@@ -203,6 +206,7 @@ impl Interp {
                     st.items.insert(0, Item::Import(ImportSpec { form: ImportForm::Star, module: 1 + *k % 3, level: 1 }));
                 }
             }
+            Edit::Blank(_) => st.items.clear(),
             Edit::Break(_) => valid = false,
             Edit::Resend => {
                 valid = st.valid;
@@ -210,6 +214,7 @@ impl Interp {
         }
         let text = match &s.edit {
             Edit::Resend => st.text.clone(),
+            Edit::Blank(k) => ["", "\n", "   \n"][(*k % 3) as usize].to_string(),
             Edit::Break(k) => {
                 let (_, t) = render_items(&cfg, &st.loc, &st.items, st.shift);
                 break_text(&t, *k)
